@@ -1,4 +1,5 @@
 import CC.Lemmas.Prims
+import CC.Lemmas.Disabled
 /-! # C06 — disabled attributes can never be encrypted to again, but stay decryptable -/
 
 namespace CC.Props.C06
@@ -77,5 +78,56 @@ theorem update_sets_flag (secrets : RevMap) (r : Right) (hyb ro : Bool) (n : Rng
   rw [show (Except.ok (secrets.setLatest r (!ro, if hyb = true then sk else sk.dropHyb)) : Except Err RevMap).toOption =
     some (secrets.setLatest r (!ro, if hyb = true then sk else sk.dropHyb)) from rfl]
   simp [RevMap.getLatest_setLatest, h]
+
+/-- when no right containing `i` is activated, no public key derived from the master key has an
+entry for such a right -/
+theorem quiet_unpublished (msk : Msk) (hwf : (msk.secrets.map (·.1)).Nodup) {i : Nat} (hq : msk.Quiet i)
+    (ids : List Nat) (hi : i ∈ ids) : msk.mpk.keys.lookup (Right.fromPoint ids) = none := by
+  cases hl : msk.mpk.keys.lookup (Right.fromPoint ids) with
+  | none => rfl
+  | some pk =>
+    exfalso
+    obtain ⟨chain, hm, hh⟩ := mpk_only_activated msk _ pk (lookup_mem hl)
+    have := mem_lookup_of_nodup hwf hm
+    have hg : msk.secrets.getLatest (Right.fromPoint ids) = some (true, pk) := by
+      unfold RevMap.getLatest; rw [this]; simpa using hh
+    have := hq ids hi _ hg
+    cases this
+
+/-- **C06 over every history.** In any reachable world in which the identifier `i` is disabled
+(every attribute carrying it is read-only), once `update_msk` succeeds, then after *any* further
+sequence of operations with any arguments (structure edits, updates, rekeys, prunes, key
+generations, refreshes) encapsulation under the then-current public key fails for every target
+set containing a right that involves `i`. There is no operation that re-enables it. -/
+theorem disabled_never_encryptable (w : World) (hr : Reachable w) (i : Nat)
+    (hd : w.msk.structure_.IdDisabled i)
+    (hu : (updateMsk w.msk w.msk.structure_.omega w.rng).1 = .ok ())
+    (ops : List Op) (ids : List Nat) (hi : i ∈ ids) (targets : List Right)
+    (ht : Right.fromPoint ids ∈ targets) (n : Rng) :
+    (encaps (ops.foldl World.step (w.step .update)).msk.mpk targets n).1 = .error .keyError := by
+  have hS := reachable_struct_wf w hr
+  have hoff0 : (w.step .update).Off i := by
+    refine ⟨?_, updateMsk_makes_quiet w.msk w.rng hd hu⟩
+    simp only [World.step, updateMsk_structure]; exact hd
+  have hS1 := step_struct w .update hS
+  have hoff := steps_off ops (w.step .update) hS1 hoff0
+  have hreach : Reachable (ops.foldl World.step (w.step .update)) := by
+    obtain ⟨n0, ops0, rfl⟩ := hr
+    refine ⟨n0, ops0 ++ (.update :: ops), ?_⟩
+    rw [List.foldl_append]; rfl
+  have hinv := reachable_inv _ hreach
+  exact encaps_needs_key _ targets n _ ht (quiet_unpublished _ hinv.1 hoff.2 ids hi)
+
+/-- disabling an attribute in a reachable world makes its identifier disabled, so the theorem
+above applies to the world right after the edit -/
+theorem disable_then_update (w : World) (hr : Reachable w) (dn nm : String) (s' : Struct)
+    (h : w.msk.structure_.disableAttribute dn nm = .ok s') :
+    ∃ d a, w.msk.structure_.dims.lookup dn = some d ∧ d.attrs.lookup nm = some a ∧
+      (w.step (.edit (.disable dn nm))).msk.structure_.IdDisabled a.id := by
+  have hS := reachable_struct_wf w hr
+  obtain ⟨d, a, h1, h2, h3⟩ := Struct.disable_makes_disabled hS.1 hS.2 h
+  refine ⟨d, a, h1, h2, ?_⟩
+  simp only [World.step, Struct.apply, h]
+  exact h3
 
 end CC.Props.C06
